@@ -198,6 +198,12 @@ class Form(Node):
 
         if e < 1:
             # Ellipse
+            # The equation is solved on the revolution centred on zero, where the
+            # initial guess below is on the side of M from which Newton's method
+            # converges, and the whole revolutions are given back afterwards
+            turns = 2 * np.pi * np.floor((M + np.pi) / (2 * np.pi))
+            M = M - turns
+
             if -np.pi < M < 0 or M > np.pi:
                 E = M - e
             else:
@@ -211,7 +217,7 @@ class Form(Node):
                 E = E1
                 E1 = next_E(E, e, M)
 
-            return E1
+            return E1 + turns
         else:
             # Hyperbolic
             if abs(M) > 6 * e:
